@@ -68,6 +68,9 @@ fn fresh_run(reqs: &[u32], pre: &[(u32, i64)], one_session: bool) -> (Vec<String
   (ops, ex, m)
 }
 
+#[global_allocator]
+static GLOBAL: verif_harness::qalloc::QAlloc = verif_harness::qalloc::QAlloc;
+
 fn main() {
   silence_panics();
   let args: Vec<String> = std::env::args().collect();
@@ -76,6 +79,7 @@ fn main() {
   let no_dump = args.iter().any(|a| a == "--nodump");
   let fresh = args.iter().any(|a| a == "--fresh");
   let noise = args.iter().any(|a| a == "--noise");
+  if noise { verif_harness::qalloc::enable_quarantine(); }     // second replay: a different address-reuse pattern of the heap
   for_each_case(&args[1], |idx, toks| {
     writeln!(out, "C {}", idx).unwrap();
     out.flush().unwrap();   // so that a crash (stack overflow, abort) is attributed to the case it happened in
